@@ -352,7 +352,17 @@ pub fn apply_fault(doc: &Value, fault: &str, rng: &mut Rng) -> Option<Value> {
         return Some(d);
     }
     if fault == "chance-labels-empty" {
-        let chance: Vec<&(String, String)> = all.iter().filter(|(_, k)| k == "chance").collect();
+        // (only chance nodes with several outcomes: a ONE-outcome chance node sharing a label with a several-outcome node is
+        // accepted by the library against its contract - the listed known finding R3s of C11, not to be re-reported here)
+        let several = |ptr: &str| -> bool {
+            doc.pointer(&format!("{ptr}/f/0/v/f")).and_then(|ms| ms.as_array()).map_or(false, |ms| {
+                ms.iter().any(|m| {
+                    m["k"] == "outcomes"
+                        && m["v"]["f"].as_array().map_or(false, |o| o.iter().map(|e| e["k"].as_str().unwrap_or("")).collect::<BTreeSet<_>>().len() >= 2)
+                })
+            })
+        };
+        let chance: Vec<&(String, String)> = all.iter().filter(|(p, k)| k == "chance" && several(p)).collect();
         if chance.len() < 2 {
             return None;
         }
